@@ -42,6 +42,7 @@ type budgetError interface {
 
 var (
 	hookOnce   sync.Once
+	depthOnce  sync.Once
 	hookOK     bool
 	hookWhy    string
 	infraOnce  sync.Once
@@ -80,6 +81,31 @@ func hookActive() bool {
 		cl.Match("", probeInput, nil)
 		hookWhy = "probe match finished although the step budget was 1 (calls missing in the repetition loops?)"
 	})
+	if hookOK { // second probe: the depth budget must work too, or left recursion would kill the process
+		depthOnce.Do(func() {
+			hookOK = false
+			cl, err := tpl.New("a = b\nb = INT\n")
+			if err != nil {
+				hookWhy = "depth probe grammar does not compile: " + err.Error()
+				return
+			}
+			setBudget(cl, 0, 1)
+			defer setBudget(cl, 0, 0)
+			defer func() {
+				if p := recover(); p != nil {
+					if b, ok := p.(budgetError); ok {
+						if kind, _, _ := b.VerifBudgetExceeded(); kind == "depth" {
+							hookOK = true
+							return
+						}
+					}
+					hookWhy = fmt.Sprintf("depth probe panicked with %v", p)
+				}
+			}()
+			cl.Match("", "1", nil)
+			hookWhy = "depth probe finished although the depth budget was 1 (calls missing in Var.Match?)"
+		})
+	}
 	return hookOK
 }
 
